@@ -147,14 +147,24 @@ def materialise(sc, root):
     if sc["app"]:
         with open(os.path.join(shared_dir, "a1." + sext), "wb") as f:
             f.write(render_doc(shared_doc, sc["app"], compat=sc.get("compat", False)))
+    if sc["via"] == "fm2":
+        for nm, tcs in (("p2", sc.get("pre2", [])), ("a2", sc.get("app2", []))):
+            if tcs:
+                with open(os.path.join(shared_dir, nm + "." + sext), "wb") as f:
+                    f.write(render_doc(shared_doc, tcs, compat=sc.get("compat", False)))
     paths = []
     for i, doc in enumerate(sc["docs"]):
         front = []
-        if sc["via"] == "fm" and i == 0 and doc["fmt"] == "md":
+        if sc["via"] in ("fm", "fm2") and i == 0 and doc["fmt"] == "md":
             if sc["pre"]:
                 front.append("prepend: [p1.md]")
             if sc["app"]:
                 front.append("append: [a1.md]")
+        if sc["via"] == "fm2" and i == 1 and doc["fmt"] == "md":
+            if sc.get("pre2"):
+                front.append("prepend: [p2.md]")
+            if sc.get("app2"):
+                front.append("append: [a2.md]")
         # names are chosen so that the order given on the command line is NOT the lexicographic order
         name = f"{'zyxw'[i]}-d{i + 1}." + ("md" if doc["fmt"] == "md" else "t")
         if doc["fault"] == "nomatch":
@@ -198,14 +208,24 @@ def shared_applies(sc, i):
     # front-matter prepend/append only exists for Markdown documents
     if sc["via"] == "cli":
         return True
+    if sc["via"] == "fm2" and i == 1:
+        return sc["docs"][1]["fmt"] == "md"
     return i == 0 and sc["docs"][0]["fmt"] == "md"
+
+
+def shared_of(sc, i):
+    """(prepend test cases, append test cases) that belong to document i"""
+    if sc["via"] == "fm2" and i == 1:
+        return sc.get("pre2", []), sc.get("app2", [])
+    return sc["pre"], sc["app"]
 
 
 def assembled(sc, i):
     if sc["docs"][i]["fault"] == "nomatch":
         return []
     sh = shared_applies(sc, i)
-    return (sc["pre"] if sh else []) + sc["docs"][i]["tests"] + (sc["app"] if sh else [])
+    pre, app = shared_of(sc, i)
+    return (pre if sh else []) + sc["docs"][i]["tests"] + (app if sh else [])
 
 
 def run_scrut(argv, root, renderer="json", extra_env=None, timeout=120):
@@ -317,8 +337,14 @@ def observe(sc, want_summary=False, keep=False):
         # wall-clock check per document (C14): only meaningful for single-document scenarios
         obs["wall_doc"] = [round(wall, 2)] * nd
         # late markers of documents in which a timeout was reported: the command went on after the "abort"
-        obs["late"] = [[x for x in late_all if x in [tc["id"] for tc in assembled(sc, i)]] if "timeout" in res[i] else []
-                       for i in range(nd)]
+        # (per-process executor: only the command that was reported as timed out is meant -- an earlier slow command that
+        # stayed inside its limits reaches its end legitimately; single-script executor: no attribution, any command)
+        def late_of(i):
+            A = assembled(sc, i)
+            script = sc["docs"][i]["fmt"] == "cram" or sc.get("compat")
+            timed = {tc["id"] for x, tc in enumerate(A) if script or (x < len(res[i]) and res[i][x] == "timeout")}
+            return [x for x in late_all if x in timed]
+        obs["late"] = [late_of(i) if "timeout" in res[i] else [] for i in range(nd)]
         if want_summary:
             code2, out2, err2, _w, pid2 = run_scrut(argv, root, renderer="pretty",
                                                    extra_env={"RUN_LOG": os.path.join(root, "run2.log")})
